@@ -17,3 +17,12 @@ package main
 //@   ensures [C18] malformed-flag-fails: len(s) == 1 ==> (result1 != nil <==> index_rune(s[0], "=") == 0 - 1)
 //@   ensures [C18,C16,C20] splits-at-first-equals: len(s) == 1 && result1 == nil ==> result0[substr(s[0], 0, index_rune(s[0], "="))] == substr(s[0], index_rune(s[0], "=") + 1, len(s[0]))
 //@   ensures [C18] empty: len(s) == 0 ==> result1 == nil
+
+// ---- map iterations (C12) ----------------------------------------------------
+//@ func allKeys
+//@   props C12
+//@   maprange 0: keyed-write
+//@   maprange 1: argued the result order is random by design; its only consumer builds SchemaMappings, whose readers take the first entry with a given SchemaID, and the ids are unique (they are the keys of a set)
+//@ func init$1
+//@   props C12
+//@   maprange 0: argued the order only decides in which order the output files are written; their names and contents come from Sources()
